@@ -2084,6 +2084,10 @@ class Backend:
         if isinstance(target, (build.CustomTarget, build.BuildTarget)):
             source_list_raw = target.sources
             source_list = []
+            if isinstance(target, build.CustomTarget):
+                # The same inputs, in the same places, as the build statement gets
+                source_list = [os.path.join(self.build_dir, s) for s in self.get_custom_target_sources(target)]
+                source_list_raw = []
             for j in source_list_raw:
                 if isinstance(j, mesonlib.File):
                     source_list += [j.absolute_path(self.source_dir, self.build_dir)]
